@@ -2,4 +2,5 @@
 From Coq Require Import Extraction ExtrOcamlBasic.
 From PV Require Import Num Model_diag Entry_diag.
 Extraction Language OCaml.
-Extraction "model_diag.ml" run_scatter run_pgr run_coaxial run_bingham run_lcg run_fse run_fse_angle run_session.
+Extraction "model_diag.ml" run_scatter run_pgr run_coaxial run_bingham run_lcg run_fse run_fse_angle run_session run_fse_session run_smallest_angle
+  run_gen_scatter run_gen_pgr run_gen_coaxial run_gen_bingham run_gen_default run_gen_fse run_gen_lcg run_gen_angle run_gen_fse_angle.
